@@ -221,7 +221,7 @@ Proof.
 Qed.
 
 (* ------------------------------------------------------------------ validity of the body, every formatter form *)
-Ltac solve_field := first [ assumption | apply field_ok_orb | (vm_compute; reflexivity) ].
+Ltac solve_field := first [ (vm_compute; reflexivity) | assumption | apply field_ok_orb ].
 Ltac solve_valid :=
   match goal with |- validate ?S ?r = true => let r' := eval vm_compute in r in change (validate S r' = true) end;
   unfold validate; apply andb_true_intro; split; [apply andb_true_intro; split|];
@@ -236,12 +236,12 @@ Proof.
   intros [t dbg sh] E [m st er et em h ca cp sid sts] f Hs HE (Hm & Het & Hst & Hsid & _ & Hcp).
   cbn [shp e_method e_error e_etype e_stream e_sid e_captured] in *. subst sh cp.
   unfold env_ok in HE. do 11 (apply andb_true_iff in HE as [HE ?]).
+  pose proof (field_ok_orb (List.length (request_b64 E))) as Horb.
+  remember (Z.of_nat (List.length (request_b64 E))) as z eqn:Hz. clear Hz.
   destruct m as [|mx mm]; [contradiction|]. clear Hm.
-  destruct er; [|rewrite (Het eq_refl)]; clear Het;
-  (destruct sid as [|sx ss]; [destruct st; [exfalso; apply (Hst eq_refl); reflexivity|] | pose proof (Hsid ltac:(discriminate)) as Hsid'; destruct st]);
-  clear Hst Hsid.
-  all: destruct em as [|ex em']; destruct dbg; destruct sts; destruct f.
-  all: try (destruct et as [|tx tt]).
+  destruct er; [ destruct em as [|ex em']; [destruct et as [|tx tt]|] | rewrite (Het eq_refl); destruct em as [|ex em'] ]; clear Het.
+  all: (destruct sid as [|sx ss]; [destruct st; [exfalso; apply (Hst eq_refl); reflexivity|] | pose proof (Hsid ltac:(discriminate)) as Hsid'; destruct st]); clear Hst Hsid.
+  all: destruct dbg; destruct sts; destruct f.
   all: unfold body_of, emit_record; cbn [e_method e_error e_etype e_stream e_sid e_captured e_stats e_emsg e_cancelled e_http shp debug].
   all: solve_valid.
 Qed.
